@@ -345,3 +345,114 @@ Proof.
   exists td. split; assumption.
 Qed.
 Print Assumptions transfer_complete_nonvacuous.
+
+(** ** Round 4: every Fiat-Shamir challenge derived INSIDE the model from the modelled transcript
+    ([EncTransferFS.v]): the sigma challenge and both range proofs' y, z, x, w, u_0..u_5, by prover and
+    verifier separately, hash function [H] and [sfb] universally quantified.  The prover aborts exactly when a
+    challenge it must invert is zero, which exhibits a byte string hashed to the zero scalar. *)
+From CB Require Import Crypto.BpTranscript Crypto.EncTransferFS Crypto.EncTransferFSProofs.
+
+Section C12_TransferFS.
+  Context {K : FieldOps} {KL : FieldLaws K} {M : ModOps K} {ML : ModLaws M} (Cd : CodecOps M).
+  Variable H : bytes -> bytes.
+  Variable sfb : bytes -> K.
+  Variables (g h : M) (Gs Hs : list M).
+  Local Open Scope G_scope.
+
+  (** for every hash function: either some explicit byte string is hashed to the zero scalar (the prover
+      aborts, as the code does at [inverse()?]), or the transfer is produced, VERIFIES under the challenges the
+      verifier derives from the transcript, carries the index, consists of the chunk-wise encryptions of
+      amount / balance - amount, CONSERVES value (dec(remaining) + amount*h = dec(balance)), and its first
+      challenge is the hash of the frame that starts with the transcript prefix binding gc, receiver key and
+      sender key *)
+  Theorem transfer_complete_fs : forall gc pk_r sk agg_enc s idx a rnd,
+    (s < W64)%N -> (a <= s)%N ->
+    decrypt sk (join agg_enc) = kofN s *: h ->
+    List.length (tr_A rnd) = 2%nat -> List.length (tr_S rnd) = 2%nat -> sigma_rand_ok 2 2 (tr_sigma rnd) ->
+    bp_rand_ok (tr_bp_a rnd) -> bp_rand_ok (tr_bp_s rnd) ->
+    (64 <= List.length Gs)%nat -> (64 <= List.length Hs)%nat ->
+    match make_transfer_data_fs Cd H sfb g h Gs Hs gc pk_r sk agg_enc s idx a rnd with
+    | None => exists b : bytes, sfb (H b) = F0 K
+    | Some td =>
+        verify_transfer_data_fs Cd H sfb g h Gs Hs gc pk_r (sk *: g) agg_enc td = true
+        /\ td_index td = idx
+        /\ (exists a0 a1 r0 r1, (a0 + 2 ^ 32 * a1 = a)%N /\ (r0 + 2 ^ 32 * r1 = s - a)%N
+             /\ enc_list (td_transfer td) = encrypt_chunks g h pk_r [a0; a1] (tr_A rnd)
+             /\ enc_list (td_remaining td) = encrypt_chunks g h (sk *: g) [r0; r1] (tr_S rnd))
+        /\ decrypt sk (join (td_remaining td)) + kofN a *: h = decrypt sk (join agg_enc)
+        /\ (exists cm, fst (td_accounting td)
+              = H (frame (enc_trans_proto Cd) Legacy (transfer_ctx Cd g gc pk_r (sk *: g))
+                     (gen_enc_trans_proof_info g h (sk *: g) pk_r (join agg_enc)
+                        (enc_list (td_transfer td)) (enc_list (td_remaining td))) cm))
+    end.
+  Proof. exact (transfer_complete_fs_ Cd H sfb g h Gs Hs). Qed.
+  Print Assumptions transfer_complete_fs.
+
+  Theorem transfer_complete_fs_nonzero : forall gc pk_r sk agg_enc s idx a rnd,
+    (forall b, sfb (H b) <> F0 K) ->
+    (s < W64)%N -> (a <= s)%N ->
+    decrypt sk (join agg_enc) = kofN s *: h ->
+    List.length (tr_A rnd) = 2%nat -> List.length (tr_S rnd) = 2%nat -> sigma_rand_ok 2 2 (tr_sigma rnd) ->
+    bp_rand_ok (tr_bp_a rnd) -> bp_rand_ok (tr_bp_s rnd) ->
+    (64 <= List.length Gs)%nat -> (64 <= List.length Hs)%nat ->
+    exists td, make_transfer_data_fs Cd H sfb g h Gs Hs gc pk_r sk agg_enc s idx a rnd = Some td
+      /\ verify_transfer_data_fs Cd H sfb g h Gs Hs gc pk_r (sk *: g) agg_enc td = true
+      /\ decrypt sk (join (td_remaining td)) + kofN a *: h = decrypt sk (join agg_enc).
+  Proof. exact (transfer_complete_fs_nonzero_ Cd H sfb g h Gs Hs). Qed.
+  Print Assumptions transfer_complete_fs_nonzero.
+
+  Theorem sec_to_pub_complete_fs : forall gc sk agg_enc s idx a rnd,
+    (s < W64)%N -> (a <= s)%N ->
+    decrypt sk (join agg_enc) = kofN s *: h ->
+    List.length (sr_S rnd) = 2%nat -> sigma_rand_ok 1 2 (sr_sigma rnd) -> bp_rand_ok (sr_bp_s rnd) ->
+    (64 <= List.length Gs)%nat -> (64 <= List.length Hs)%nat ->
+    match make_sec_to_pub_transfer_data_fs Cd H sfb g h Gs Hs gc sk agg_enc s idx a rnd with
+    | None => exists b : bytes, sfb (H b) = F0 K
+    | Some sd =>
+        verify_sec_to_pub_transfer_data_fs Cd H sfb g h Gs Hs gc (sk *: g) agg_enc sd = true
+        /\ sd_index sd = idx /\ sd_transfer_amount sd = a
+        /\ (exists r0 r1, (r0 + 2 ^ 32 * r1 = s - a)%N
+             /\ enc_list (sd_remaining sd) = encrypt_chunks g h (sk *: g) [r0; r1] (sr_S rnd))
+        /\ decrypt sk (join (sd_remaining sd)) + kofN (sd_transfer_amount sd) *: h = decrypt sk (join agg_enc)
+    end.
+  Proof. exact (sec_to_pub_complete_fs_ Cd H sfb g h Gs Hs). Qed.
+  Print Assumptions sec_to_pub_complete_fs.
+
+  (** the in-place prover IS the range prover of C11 run on the challenges the verifier derives from the
+      finished proof (so C11's theorems about [range_prove] apply to it) *)
+  Theorem bulletprove_fs_is_range_prove : forall st pk chunks ks r p c st',
+    bulletprove_fs Cd H sfb g h Gs Hs st pk chunks ks r = Some (p, c, st') ->
+    p = bulletprove h Gs Hs pk chunks ks r c
+    /\ c = fs_chal Cd H sfb st (bp_pre Cd (commitments g h pk chunks ks)) p
+    /\ st' = fs_after Cd st (bp_pre Cd (commitments g h pk chunks ks)) p
+    /\ bp_chal_ok c.
+  Proof. exact (bulletprove_fs_spec Cd H sfb g h Gs Hs). Qed.
+  Print Assumptions bulletprove_fs_is_range_prove.
+
+  Theorem transfer_fs_exceeding_balance_not_produced : forall gc pk_r sk agg_enc s idx a rnd rnd',
+    (s < a)%N ->
+    make_transfer_data_fs Cd H sfb g h Gs Hs gc pk_r sk agg_enc s idx a rnd = None
+    /\ make_sec_to_pub_transfer_data_fs Cd H sfb g h Gs Hs gc sk agg_enc s idx a rnd' = None.
+  Proof. exact (transfer_fs_none_if_exceeds_ Cd H sfb g h Gs Hs). Qed.
+  Print Assumptions transfer_fs_exceeding_balance_not_produced.
+End C12_TransferFS.
+
+(** non-vacuity: on the lawful instance F2 with a hash that never yields zero every hypothesis of
+    [transfer_complete_fs_nonzero] holds, so a transfer IS produced and verifies with derived challenges *)
+Example transfer_complete_fs_nonvacuous :
+  let Cd := mkCodecOps F2 F2M (fun b : bool => [if b then 1 else 0]%N) (fun b : bool => [if b then 1 else 0]%N) 1 1 in
+  let ones := repeat true 64 in
+  let br := @mkBpRand F2 ones ones true false true false in
+  let rnd := @mkTR F2 [true; false] [false; true] (true, [(true, false); (false, true)], [(true, true); (false, false)]) br br in
+  let agg : @enc_amount F2 F2M := ((false, true), (false, false)) in
+  exists td, make_transfer_data_fs (K:=F2) (M:=F2M) Cd (fun b => b) (fun _ => true) true true ones ones [] true true agg 5 0 3 rnd = Some td
+    /\ verify_transfer_data_fs (K:=F2) (M:=F2M) Cd (fun b => b) (fun _ => true) true true ones ones [] true (andb true true) agg td = true.
+Proof.
+  intros Cd ones br rnd agg.
+  destruct (@transfer_complete_fs_nonzero_ F2 F2_laws F2M F2M_laws Cd (fun b => b) (fun _ => true) true true ones ones
+              [] true true agg 5 0 3 rnd) as (td & E1 & E2 & _);
+    [intros b; discriminate | reflexivity | discriminate | vm_compute; reflexivity | reflexivity | reflexivity | split; reflexivity
+    | split; reflexivity | split; reflexivity | cbn; apply le_n | cbn; apply le_n | ].
+  exists td. split; assumption.
+Qed.
+Print Assumptions transfer_complete_fs_nonvacuous.
